@@ -31,9 +31,13 @@ namespace fastscapelib
         for (std::size_t i = 0; i < m_size; ++i)
             m_pause_jobs[i] = [this, i]()
             {
+                FASTSCAPELIB_VERIF_SCHED(pausejob_before_lock, i);
                 std::unique_lock<std::mutex> lk(m_cv_m);
+                FASTSCAPELIB_VERIF_SCHED(pausejob_after_lock, i);
                 ++m_paused_count;
+                FASTSCAPELIB_VERIF_SCHED(pausejob_after_inc, i);
                 m_cv.wait(lk);
+                FASTSCAPELIB_VERIF_SCHED(pausejob_after_wait, i);
                 --m_paused_count;
             };
     }
@@ -60,7 +64,11 @@ namespace fastscapelib
 
         for (std::size_t i = 0; i < m_size; ++i)
             if ((*p_jobs)[i] != nullptr)
+            {
+                FASTSCAPELIB_VERIF_SCHED(runtasks_before_store, i);
                 m_has_job[i].store(1, std::memory_order_relaxed);
+                FASTSCAPELIB_VERIF_SCHED(runtasks_after_store, i);
+            }
     }
 
     /////////////////////////////////////////////////////////////////////////////////////////
@@ -77,7 +85,9 @@ namespace fastscapelib
 
             while (m_paused_count != m_size)
             {
+                FASTSCAPELIB_VERIF_SCHED(pause_spin, static_cast<std::size_t>(-1));
             }
+            FASTSCAPELIB_VERIF_SCHED(pause_done, static_cast<std::size_t>(-1));
         }
     }
 
@@ -88,7 +98,9 @@ namespace fastscapelib
     {
         if (m_paused)
         {
+            FASTSCAPELIB_VERIF_SCHED(resume_before_notify, static_cast<std::size_t>(-1));
             m_cv.notify_all();
+            FASTSCAPELIB_VERIF_SCHED(resume_after_notify, static_cast<std::size_t>(-1));
             m_paused = false;
             wait();
         }
@@ -122,7 +134,9 @@ namespace fastscapelib
     {
         while (!was_empty())
         {
+            FASTSCAPELIB_VERIF_SCHED(wait_spin, static_cast<std::size_t>(-1));
         }
+        FASTSCAPELIB_VERIF_SCHED(wait_done, static_cast<std::size_t>(-1));
     }
 
     /////////////////////////////////////////////////////////////////////////////////////////
@@ -137,6 +151,7 @@ namespace fastscapelib
             if (m_paused)
                 resume();
 
+            FASTSCAPELIB_VERIF_SCHED(stop_before_join, static_cast<std::size_t>(-1));
             for (std::thread& worker : m_workers)
                 worker.join();
         }
@@ -174,12 +189,17 @@ namespace fastscapelib
                     {
                         while (!m_stopped.load(std::memory_order_relaxed))
                         {
+                            FASTSCAPELIB_VERIF_SCHED(worker_loop, i);
                             if (m_has_job[i].load(std::memory_order_relaxed))
                             {
+                                FASTSCAPELIB_VERIF_SCHED(worker_before_job, i);
                                 (*p_jobs)[i]();
+                                FASTSCAPELIB_VERIF_SCHED(worker_after_job, i);
                                 m_has_job[i].store(0, std::memory_order_relaxed);
+                                FASTSCAPELIB_VERIF_SCHED(worker_after_clear, i);
                             }
                         }
+                        FASTSCAPELIB_VERIF_SCHED(worker_exit, i);
                     });
             }
         }
